@@ -115,15 +115,19 @@ type VerifOracleState struct {
 	DiscardTs     uint64
 	ReadDoneUntil uint64
 	TxnDoneUntil  uint64
-	Committed     []VerifCommitted
+	// oracle.discardAtOrBelow(): what compactions may discard
+	DiscardAtOrBelow uint64
+	Committed        []VerifCommitted
 }
 
 // State dumps the oracle under o.Lock.
 func (v *VerifOracle) State() VerifOracleState {
 	o := v.o
+	da := o.discardAtOrBelow() // takes o.Lock itself in managed mode
 	o.Lock()
 	defer o.Unlock()
 	st := VerifOracleState{
+		DiscardAtOrBelow: da,
 		NextTxnTs:     o.nextTxnTs,
 		LastCleanupTs: o.lastCleanupTs,
 		DiscardTs:     o.discardTs,
